@@ -76,7 +76,7 @@ Disagree(obs, den, i) ==
        ELSE LET b == Eval(den, EnvOf(i), {}) IN
             IF IsU(b) \/ a = b THEN Disagree(obs, den, i + 1) ELSE i
 
-AlwaysUnknown(den) == \A i \in 1..NEnv : IsU(Eval(den, EnvOf(i), {}))
+AlwaysUnknown(den) == \A i \in 1..NEnv : Poisoned(den, EnvOf(i))
 
 (* verdict bookkeeping: first failure per property; deviations seen *)
 Top(t) == IF t.k \in {"op", "uop"} THEN t.s ELSE t.k          \* outermost constructor, to key findings
@@ -108,7 +108,7 @@ CheckAllLive(v, L, k, P, newh) ==
 
 (* amoco's own evaluation: vals[i][h] *)
 CheckVal(v, r, den, h, i) ==
-  IF r.k = "raised" THEN (IF IsU(Eval(den, EnvOf(i), {})) THEN v ELSE Fail(v, "C01", "EvalTotal", h, i))
+  IF r.k = "raised" THEN (IF Poisoned(den, EnvOf(i)) THEN v ELSE Fail(v, "C01", "EvalTotal", h, i))
   ELSE IF r.w # Width(den) THEN Fail(v, "C12", "EvalWidth", h, i)
   ELSE IF r.k # "cst" THEN v
   ELSE LET b == Eval(den, EnvOf(i), {}) IN
